@@ -401,7 +401,15 @@ def run(ctx, replay=None):
         "NumPy / dask (output-shaped, row, column, vector; rows / columns / irregular chunkings; parameter expressions; one array for two "
         "parameters; keyword) x size given / derived x chunks auto / omitted / bytes / explicit under array.chunk-size 64B..128MiB, and the "
         "*_like family; both x optimize-graph on/off; distinct by (consumer family, second, optimize, fused) / (distribution, front end, "
-        "parameter kinds, auto/explicit, optimize)"
+        "parameter kinds, auto/explicit, optimize). Stage stream: nodes whose layer is assembled from several internal stages driven "
+        "into their deepest configuration over non-absorbing sources (cumsum / map_blocks / persisted): rechunks whose REAL plan_rechunk "
+        "plan has >= 3 stages (transpose-style, irregular 2-d, 3-d, 1-d / 2-d under array.rechunk.degree-limit 2..4, threshold= / "
+        "block_size_limit= as keywords or through array.rechunk.threshold / array.chunk-size; candidates scored by the planner, the "
+        "deepest of 8 taken), reductions / arg-reductions / topk / bincount with split_every=2 over 16-40 blocks, blelloch / sequential "
+        "scans, shuffle / take with split groups and repeated indices, map_overlap with depth > chunk width, reshape, tensordot / matmul / "
+        "einsum / vdot trees, sliding-window reductions, tsqr / svd; per node the stages are rebuilt with the real _compute_rechunk and "
+        "their key sets compared (pairwise disjoint, total = merged layer), every toolz.merge inside _layer() observed, task.key = dict key, "
+        "values = NumPy, and the __frisky_graph__ records of the same collection executed; distinct by (family, flavour/op, stages, optimize, layer classes)"
     )
     ctx.assumptions = [
         "the layer contract is MONITORED (every real layer of every generated program), not proved for each layer class; "
@@ -427,6 +435,11 @@ def run(ctx, replay=None):
             from harness.props_ext import c04_operands
 
             c04_operands.replay(ctx, case)
+            return
+        if case.get("kind") == "stages":  # layers built from several internal stages, deepest configuration (c04_stages.py)
+            from harness.props_ext import c04_stages
+
+            c04_stages.replay(ctx, case)
             return
         fails = run_case(ctx, case) or []
         for sig, detail in fails:
@@ -479,6 +492,12 @@ def run(ctx, replay=None):
     from harness.props_ext import c04_operands
 
     c04_operands.run_stream(ctx)
+    # ---- layers assembled from several internal stages under one node (multi-stage rechunk chosen by the real planner's
+    # stage count, split_every=2 trees, blelloch scans, shuffle groups, overlap / reshape pipelines under small planner
+    # options, contraction trees, tsqr) checked stage by stage at the source (harness/props_ext/c04_stages.py)
+    from harness.props_ext import c04_stages
+
+    c04_stages.run_stream(ctx)
     known_probe(ctx)
     ctx.notes.update(STATS)
     if ctx.disagreements:
